@@ -3,7 +3,7 @@ import re
 from collections import defaultdict
 
 from vlib import mirlib as M
-from vlib.mirlib import fn_matches
+from vlib.mirlib import fn_matches, op_place, op_local, op_const
 
 PANIC_CALLEES = [
     (r"option::Option::<T>::(unwrap|expect)$", "Option::unwrap/expect"),
@@ -58,8 +58,11 @@ def sites_in(body):
             if lab:
                 sp = t["span"]
                 f, l = M.user_span(sp)
-                out.append({"caller": body.path, "callee": short(t), "label": lab, "file": f, "line": l,
-                            "macros": sp.get("macros") or [], "block": b})
+                site = {"caller": body.path, "callee": short(t), "label": lab, "file": f, "line": l,
+                        "macros": sp.get("macros") or [], "block": b,
+                        "origin": operand_origin(body, t["args"][0]) if t["args"] else "no operand"}
+                site["discharged"] = discharged(body, site)
+                out.append(site)
         elif t["k"] == "assert":
             md = t.get("msg_dbg", "")
             kind = md.split("(")[0].split("{")[0].strip()
@@ -81,3 +84,296 @@ def group(sites):
 
 def key(caller, callee, n):
     return "panic-site %s -> %s x%d" % (caller, callee, n)
+
+
+# ------------------------------------------------------------------ what a panic-capable call is applied to
+
+_PASS = M.IDENTITY_CALLS + [r"Option::<T>::(as_ref|as_mut|as_deref|cloned|copied)$", r"Result::<T, E>::(as_ref|as_mut)$"]
+
+
+def _ty_short(ty):
+    ty = re.sub(r"^&(mut )?", "", ty or "")
+    ty = re.sub(r"<.*$", "", ty)
+    return ty
+
+
+def operand_origin(body, op, steps=40):
+    """Where the value a panic-capable operation is applied to comes from, followed backwards through moves, borrows and
+    identity-like calls inside the function: `field <type>.<field>`, `call <callee>`, `param <type>`, `const`, `local <type>`.
+    The description does not mention the function it was found in or any variable name."""
+    pl = op_place(op)
+    if pl is None:
+        return "const"
+    cur, proj = pl["l"], [x for x in pl["p"] if x != "*"]
+    for _ in range(steps):
+        if proj:
+            fields = [x for x in proj if x.startswith(".")]
+            idx = [x for x in proj if x.startswith("[")]
+            if fields:
+                return "field %s%s" % (_ty_short(body.local_ty(cur)), "".join(fields))
+            if idx:
+                return "element of %s" % _ty_short(body.local_ty(cur))
+        ds = [d for d in M.def_sites(body, cur) if not body.is_cleanup(d[0])]
+        if not ds:
+            if 1 <= cur <= body.raw["arg_count"]:
+                return "param %s" % _ty_short(body.local_ty(cur))
+            return "local %s" % _ty_short(body.local_ty(cur))
+        if len(ds) > 1:
+            return "local %s" % _ty_short(body.local_ty(cur))
+        b, i, d = ds[0]
+        if i == "term":
+            if fn_matches(d, *_PASS) and d["args"] and op_place(d["args"][0]) is not None:
+                p2 = op_place(d["args"][0])
+                cur, proj = p2["l"], [x for x in p2["p"] if x != "*"]
+                continue
+            f = d.get("fn") or {}
+            return "call %s" % (f.get("res") or f.get("path") or "indirect")
+        rv = d["rv"]
+        if rv["k"] in ("use", "cast"):
+            p2 = op_place(rv["op"])
+            if p2 is None:
+                return "const"
+            cur, proj = p2["l"], [x for x in p2["p"] if x != "*"]
+        elif rv["k"] in ("ref", "rawptr"):
+            cur, proj = rv["pl"]["l"], [x for x in rv["pl"]["p"] if x != "*"]
+        elif rv["k"] == "agg":
+            return "aggregate %s" % (rv.get("adt") or ("tuple" if rv.get("tuple") else "value"))
+        else:
+            return "computed"
+    return "local %s" % _ty_short(body.local_ty(cur))
+
+
+INDEXED = r"vec::Vec::<T, A>::(insert|split_off)$|slice::<impl \[T\]>::(split_at|split_at_mut)$|str::<impl str>::split_at$|ops::Index(Mut)?<.*>>::index(_mut)?$|string::String::truncate$"
+_BOUNDED_ADAPTORS = [r"Iterator::(zip|take_while|filter|map|skip_while|enumerate|by_ref|peekable|take|skip|rev|copied|cloned|inspect|map_while|filter_map)$",
+                     r"IntoIterator>::into_iter$", r"slice::<impl \[T\]>::iter$", r"Vec::<T, A>::iter$", r"ops::Deref::deref$"]
+
+
+def _iter_sources(body, local, seen=None, steps=0):
+    """base locals of the collections an iterator value walks over (None if an adaptor that can lengthen it is involved)"""
+    seen = set() if seen is None else seen
+    if local in seen or steps > 40:
+        return set()
+    seen.add(local)
+    out = set()
+    ds = [d for d in M.def_sites(body, local) if not body.is_cleanup(d[0])]
+    if not ds:
+        return {local}
+    for b, i, d in ds:
+        if i == "term":
+            if fn_matches(d, *_BOUNDED_ADAPTORS):
+                args = d["args"][:2] if fn_matches(d, r"Iterator::zip$") else d["args"][:1]
+                for a in args:
+                    p2 = op_place(a)
+                    if p2 is None:
+                        return None
+                    r = _iter_sources(body, p2["l"], seen, steps + 1)
+                    if r is None:
+                        return None
+                    out |= r
+            elif fn_matches(d, r"Iterator::(chain|cycle|flat_map|flatten|repeat|step_by)"):
+                return None
+            else:
+                out.add(local)
+        else:
+            rv = d["rv"]
+            src = op_place(rv["op"]) if rv["k"] in ("use", "cast") else rv.get("pl") if rv["k"] in ("ref", "rawptr") else None
+            if src is None:
+                out.add(local)
+            else:
+                r = _iter_sources(body, src["l"], seen, steps + 1)
+                if r is None:
+                    return None
+                out |= r
+    return out
+
+
+def _base_local(body, op):
+    pl = op_place(op)
+    if pl is None:
+        return None
+    r = _iter_sources(body, pl["l"])
+    return r
+_IN_RANGE_SOURCES = [r"Iterator::(position|rposition)$", r"::len$", r"Option::<T>::unwrap_or$", r"cmp::(min|Ord::min)$"]
+
+
+def index_in_range_by_construction(body, t):
+    """`v.insert(i, ..)` / `s.split_at(i)` accept every i <= len: discharged when i is, on every path, the result of
+    `position(..)` over that collection, its `len()`, or `position(..).unwrap_or(len())` (never a computed number)."""
+    if not fn_matches(t, INDEXED) or len(t["args"]) < 2:
+        return False
+    l0 = op_local(t["args"][1])
+    if l0 is None:
+        return False
+    target = _base_local(body, t["args"][0]) or set()
+    seen, work, ok_src = set(), [l0], 0
+    while work:
+        l = work.pop()
+        if l in seen:
+            continue
+        seen.add(l)
+        ds = [d for d in M.def_sites(body, l) if not body.is_cleanup(d[0])]
+        if not ds:
+            return False
+        for b, i, d in ds:
+            if i == "term":
+                if fn_matches(d, r"Iterator::(position|rposition|count)$", r"::len$") and d["args"] and op_place(d["args"][0]) is not None:
+                    # a position in / the length of / a count over the collection the operation is applied to
+                    src = _iter_sources(body, op_place(d["args"][0])["l"])
+                    if src is None or not (src & target):
+                        if not (fn_matches(d, r"str::<impl str>::len$") and _is_suffix_trim_of(body, d, target)):
+                            return False
+                    ok_src += 1
+                elif fn_matches(d, r"Option::<T>::unwrap_or$", r"cmp::min$", r"Ord::min$"):
+                    for a in d["args"]:
+                        p2 = op_place(a)
+                        if p2 is None:
+                            return False
+                        work.append(p2["l"])
+                else:
+                    return False
+            else:
+                rv = d["rv"]
+                if rv["k"] in ("use", "cast") and op_place(rv["op"]) is not None:
+                    work.append(op_place(rv["op"])["l"])
+                elif rv["k"] in ("use",) and (op_const(rv["op"]) or {}).get("int") == 0:
+                    ok_src += 1
+                elif rv["k"] == "agg" and re.search(r"ops::Range(From|To|Full)?$", rv.get("adt") or ""):
+                    # `x[a..]`, `x[..b]`: every bound must be in range by construction (a two-sided range also needs a <= b: not discharged)
+                    if (rv.get("adt") or "").endswith("ops::Range"):
+                        return False
+                    for o in rv["ops"]:
+                        if op_place(o) is not None:
+                            work.append(op_place(o)["l"])
+                        elif (op_const(o) or {}).get("int") != 0:
+                            return False
+                        else:
+                            ok_src += 1
+                else:
+                    return False
+    return ok_src > 0
+
+
+def _is_suffix_trim_of(body, len_call, target):
+    """`s.trim_end_matches(..).len()` / `s.trim_end().len()`: a prefix of s, so its length is a char boundary of s"""
+    p = op_place(len_call["args"][0])
+    if p is None:
+        return False
+    cur = p["l"]
+    for _ in range(10):
+        ds = [d for d in M.def_sites(body, cur) if not body.is_cleanup(d[0])]
+        if len(ds) != 1 or ds[0][1] == "term":
+            break
+        rv = ds[0][2]["rv"]
+        nxt = op_place(rv["op"]) if rv["k"] in ("use", "cast") else rv.get("pl") if rv["k"] in ("ref",) else None
+        if nxt is None:
+            break
+        cur = nxt["l"]
+    for b, i, d in M.def_sites(body, cur):
+        if i == "term" and fn_matches(d, r"str::<impl str>::(trim_end_matches|trim_end|strip_suffix)$") and d["args"] and op_place(d["args"][0]) is not None:
+            src = _iter_sources(body, op_place(d["args"][0])["l"])
+            if src and (src & target):
+                return True
+    return False
+
+
+def constant_index_guarded(body, t, block):
+    """`x[k]` with a literal k: discharged when the call is dominated by the true edge of a test `x.len() == n` (n > k),
+    `x.len() > k`, `x.len() >= k+1` or `!x.is_empty()` (k = 0) on a place of the same type reached through the same field."""
+    if not fn_matches(t, r"ops::Index(Mut)?<.*>>::index(_mut)?$", r"ops::Index(Mut)?::index(_mut)?$") or len(t["args"]) < 2:
+        return False
+    k = (op_const(t["args"][1]) or {}).get("int")
+    if k is None:
+        return False
+    what = operand_origin(body, t["args"][0])
+    for b2, t2 in body.calls():
+        if body.is_cleanup(b2) or not fn_matches(t2, r"::len$", r"::is_empty$") or not t2["args"]:
+            continue
+        if operand_origin(body, t2["args"][0]) != what:
+            continue
+        is_len = fn_matches(t2, r"::len$")
+        dst = t2["dst"]["l"]
+        # the comparison and the switch on it
+        for b3 in range(body.n):
+            for st in body.stmts(b3):
+                if st["k"] != "assign" or st["rv"]["k"] != "binop":
+                    continue
+                a, c = st["rv"]["a"], st["rv"]["b"]
+                if op_local(a) != dst or (op_const(c) or {}).get("int") is None:
+                    continue
+                n = op_const(c)["int"]
+                opn = st["rv"]["op"]
+                cond = st["dst"]["l"]
+                sw = body.term(b3)
+                if sw["k"] != "switch" or op_local(sw["discr"]) != cond:
+                    continue
+                true_t = sw["otherwise"]
+                false_t = next((tg for v, tg in sw["targets"] if v == 0), None)
+                implies = (opn == "Eq" and n > k) or (opn == "Gt" and n >= k) or (opn == "Ge" and n > k)
+                implies_on_false = (opn == "Ne" and n > k) or (opn == "Lt" and n > k) or (opn == "Le" and n >= k)
+                if is_len and implies and body.dominates(true_t, block) and true_t != false_t:
+                    return True
+                if is_len and implies_on_false and false_t is not None and body.dominates(false_t, block):
+                    return True
+        if not is_len and k == 0:
+            tgt = t2.get("target")
+            sw = body.term(tgt) if tgt is not None else None
+            if sw and sw["k"] == "switch" and op_local(sw["discr"]) == dst:
+                false_t = next((tg for v, tg in sw["targets"] if v == 0), None)
+                if false_t is not None and body.dominates(false_t, block):
+                    return True
+    return False
+
+
+def switch_on_len_guarded(body, t, block):
+    """`x[k]` inside the `n =>` arm (n > k) of `match x.len()`"""
+    if not fn_matches(t, r"ops::Index(Mut)?<.*>>::index(_mut)?$", r"ops::Index(Mut)?::index(_mut)?$") or len(t["args"]) < 2:
+        return False
+    k = (op_const(t["args"][1]) or {}).get("int")
+    if k is None:
+        return False
+    what = operand_origin(body, t["args"][0])
+    for b2, t2 in body.calls():
+        if body.is_cleanup(b2) or not fn_matches(t2, r"::len$") or not t2["args"] or operand_origin(body, t2["args"][0]) != what:
+            continue
+        dst = t2["dst"]["l"]
+        for b3 in range(body.n):
+            sw = body.term(b3)
+            if sw["k"] == "switch" and op_local(sw["discr"]) == dst:
+                for v, tg in sw["targets"]:
+                    if isinstance(v, int) and v > k and tg != sw["otherwise"] and body.dominates(tg, block):
+                        return True
+    return False
+
+
+def justification(crate, caller, callee, origin, entries, _own={}):
+    """the entry of reference/justified_panics.json that covers this site, or None"""
+    cand = [e for e in entries if e["callee"] == callee and re.search(e["origin"], origin)]
+    for e in cand:
+        key = (id(crate), e["scope"])
+        if key not in _own:
+            _own[key] = crate.owned_by(e["scope"]) if e["scope"] in crate.by_path else {e["scope"]}
+        if caller in _own[key] or fold_closures(caller) in _own[key]:
+            return e
+    if len(cand) > 1:
+        # the same operation on the same kind of value is justified in several functions: a helper shared by exactly those
+        key = (id(crate), tuple(sorted(e["scope"] for e in cand)))
+        if key not in _own:
+            _own[key] = crate.owned_by([e["scope"] for e in cand])
+        if caller in _own[key] or fold_closures(caller) in _own[key]:
+            return cand[0]
+    return None
+
+
+def fold_closures(path):
+    return re.sub(r"::\{closure#\d+\}", "", path)
+
+
+def discharged(body, site):
+    t = body.term(site["block"])
+    if t["k"] != "call":
+        return None
+    if index_in_range_by_construction(body, t):
+        return "index is position(..)/len() of the collection it is applied to"
+    if constant_index_guarded(body, t, site["block"]) or switch_on_len_guarded(body, t, site["block"]):
+        return "constant index behind a dominating length test on the same place"
+    return None
